@@ -22,7 +22,7 @@ from vlib import gen, oracle, runner
 
 PROPERTY = "C20"
 LEVEL = "exploration"
-TIMEOUT = {"quick": 900, "thorough": 5400}
+TIMEOUT = {"quick": 1500, "thorough": 7200}
 RULE = (
     "a batch of recipes is built in a fresh child process and each requested array is pickled with cloudpickle; the "
     "receiving process sets its own name counters to k (k = number of arrays it 'already created', drawn from 0..40 or "
